@@ -108,6 +108,12 @@ CLAIMED = {
          'and prints the decision table. Every row is replayed on a real RequestRouter + RoutingRequestHandler, one handler per table, in random and adversarial orders (a rejected request immediately repeated; a second request while an '
          'asynchronous verifier is still deciding), with five handler signature variants for the parameter binding, and a sample through real endpoints with a concurrent witness request.',
          'Exhaustive over the enumerated product; routes are two registered names, one unregistered, none. Payload deserializer hooks are the defaults.', 'DESIGN 6/C19', 'routing'),
+ 'C20': ('model_checking',
+   'TLC trace validation of recorded executions through the Rx / ReactiveX adapters against the same RSocket.tla monitors as the core API',
+   'The scenarios of C01/C06/C07/C09 are driven through ReactiveXClient / RxRSocket and both handler adapters; observer callbacks are recorded in the same event vocabulary, so the same monitors decide '
+   'element-for-element delivery in order, completion and errors preserved (C20.terminal_kind_preserved), every request-n on the wire equal to the request limit, wire emission within credit, '
+   'back-pressure factories asked exactly the credited amounts, disposal cancelling the stream, and fire-and-forget / metadata-push / setup reaching the delegate. Element counts 0,1,many; limits 1..max; error positions; disposal moments; both versions.',
+   CONN_NOTE, 'DESIGN 6/C20', 'conn'),
 }
 
 NOT_YET = 'machinery for this property is still being built in this round (see DESIGN.md section 11); not claimed until its check exists'
